@@ -154,6 +154,7 @@ def st_long(draw):
     if policy == 'whitespace':
         d = ' '
     piece = st.one_of(st.just('"'), st.just('""'), st.just(d), st.just(' '), st.just(d[0]), st.text(OTHER, min_size=1, max_size=6),
+                      st.sampled_from(['\t', '\x0b', '\x0c', '\x1c', '\x85', '\xa0', '\u2003', '\u3000', 'a\tb', 'x\xa0y']),
                       st.sampled_from(['"a"', '" "', 'a""b', '"%s"' % d, ' "x" ']))
     parts = draw(st.lists(piece, min_size=0, max_size=40))
     return {'kind': 'long', 'delim': d, 'policy': policy, 'line': ''.join(parts)[:200]}
